@@ -21,6 +21,14 @@ def permute(rng, p):
     rng.shuffle(vals)
     for i, v in zip(idx, vals):
         q.attrs[i] = v
+    # the position of `sv::msg` among the attributes of its method (before / between / after `sv::attr` and foreign ones;
+    # the relative order of the others - which is the order of the forwarded attributes - stays)
+    for m in q.items:
+        if isinstance(m, Method) and len(m.attrs) > 1 and rng.random() < 0.5:
+            k = next((i for i, a in enumerate(m.attrs) if a.sv and a.sv[0] == "msg"), None)
+            if k is not None:
+                a = m.attrs.pop(k)
+                m.attrs.insert(rng.randint(0, len(m.attrs)), a)
     return q
 
 
